@@ -363,53 +363,60 @@ func schemaGraphProblems(sch *ast.Schema, m *refschema.Model) [][2]string {
 }
 
 func runC07(c *explore.Ctx) {
-	k := c.Pick(3, 4)
-	s := c.Sub("kit", fmt.Sprintf("every type system = base (%d definitions) + ≤ %d of %d menu items (good variants and one bad variant per rule: duplicate names, dangling references, wrong kinds in every position, interface field/argument/transitivity violations incl. list covariance at depth, empty bodies, reserved names, misplaced directives, missing required directive arguments, roots, extension kinds)", len(gen.KitBase), k, len(gen.KitMenu)),
-		"LoadSchema succeeds ⇔ ref/refschema finds no broken rule; on success the schema graph is closed and consistent (built-ins, introspection fields, every type reference / interface / member / directive use resolves, fields = definitions ∪ extensions, PossibleTypes and Implements equal the relations implied by the definitions, roots)", "type systems that load")
-	if s == nil {
-		return
+	// the sentences first: the kit sub-check of the thorough tier runs until the deadline
+	sentSub := func() {
+		// arbitrary (mostly ill-formed) type systems: every type-system sentence of the grammar
+		n := c.Pick(5, 7)
+		s := c.Sub("sentences", fmt.Sprintf("every sentence of ≤ %d tokens of the type-system grammar over the core alphabet, loaded on top of `type Query { q: Int }`", n),
+			"as above (these are arbitrary, mostly ill-formed type systems)", "type systems that load")
+		if s == nil {
+			return
+		}
+		t0 := time.Now()
+		ss := language(sdlSide, sdlSide.grammar(), "core", sdlSide.core, n, false)
+		for i, se := range ss {
+			if i%c.NShards != c.Shard {
+				continue
+			}
+			if i&63 == 0 && c.Expired() {
+				s.Cap("deadline")
+				break
+			}
+			s.States++
+			s.Transitions++
+			c07Sentence(c, s, renderClasses(sdlSide.core, se.Classes, " "))
+		}
+		s.WallS = time.Since(t0).Seconds()
 	}
-	t0 := time.Now()
-	idx := 0
-	explore.Subsets(len(gen.KitMenu), k, func(items []int) {
-		idx++
-		if idx%c.NShards != c.Shard {
+	sentSub()
+	kitSub := func() {
+		k := c.Pick(3, 4)
+		s := c.Sub("kit", fmt.Sprintf("every type system = base (%d definitions) + ≤ %d of %d menu items (good variants and one bad variant per rule: duplicate names, dangling references, wrong kinds in every position, interface field/argument/transitivity violations incl. list covariance at depth, empty bodies, reserved names, misplaced directives, missing required directive arguments, roots, extension kinds)", len(gen.KitBase), k, len(gen.KitMenu)),
+			"LoadSchema succeeds ⇔ ref/refschema finds no broken rule; on success the schema graph is closed and consistent (built-ins, introspection fields, every type reference / interface / member / directive use resolves, fields = definitions ∪ extensions, PossibleTypes and Implements equal the relations implied by the definitions, roots)", "type systems that load")
+		if s == nil {
 			return
 		}
-		if idx&255 == 0 && c.Expired() {
-			s.Cap("deadline")
-		}
-		if !s.Exhaustive {
-			return
-		}
-		s.States++
-		s.Transitions++
-		c07Case(c, s, kitInput{Items: append([]int{}, items...)})
-	})
-	s.WallS = time.Since(t0).Seconds()
+		t0 := time.Now()
+		idx := 0
+		explore.Subsets(len(gen.KitMenu), k, func(items []int) {
+			idx++
+			if idx%c.NShards != c.Shard {
+				return
+			}
+			if idx&255 == 0 && c.Expired() {
+				s.Cap("deadline")
+			}
+			if !s.Exhaustive {
+				return
+			}
+			s.States++
+			s.Transitions++
+			c07Case(c, s, kitInput{Items: append([]int{}, items...)})
+		})
+		s.WallS = time.Since(t0).Seconds()
 
-	// arbitrary (mostly ill-formed) type systems: every type-system sentence of the grammar
-	n := c.Pick(5, 6)
-	s = c.Sub("sentences", fmt.Sprintf("every sentence of ≤ %d tokens of the type-system grammar over the core alphabet, loaded on top of `type Query { q: Int }`", n),
-		"as above (these are arbitrary, mostly ill-formed type systems)", "type systems that load")
-	if s == nil {
-		return
 	}
-	t0 = time.Now()
-	ss := language(sdlSide, sdlSide.grammar(), "core", sdlSide.core, n, false)
-	for i, se := range ss {
-		if i%c.NShards != c.Shard {
-			continue
-		}
-		if i&63 == 0 && c.Expired() {
-			s.Cap("deadline")
-			break
-		}
-		s.States++
-		s.Transitions++
-		c07Sentence(c, s, renderClasses(sdlSide.core, se.Classes, " "))
-	}
-	s.WallS = time.Since(t0).Seconds()
+	kitSub()
 }
 
 // c07Sentence: like c07Case for a free-standing SDL text on a minimal base.
